@@ -81,6 +81,8 @@ pub struct Transport {
     pub eof: bool,
     pub out: Vec<u8>,
     pub read_chunks: Chunker,
+    /// absolute inbound offsets no single read() crosses
+    pub read_cuts: Vec<usize>,
     pub write_chunks: Chunker,
     /// Every I/O call first returns `Pending` once (makes each call an addressable await point).
     pub pend_first: bool,
@@ -111,6 +113,7 @@ impl Transport {
             eof: false,
             out: Vec::new(),
             read_chunks: Chunker::whole(),
+            read_cuts: Vec::new(),
             write_chunks: Chunker::whole(),
             pend_first: false,
             armed: false,
@@ -246,7 +249,12 @@ impl Read for SimIo {
                 s.events.borrow_mut().push(IoEvent::Fault { tr: id, kind: FaultKind::ReadEof, t: now }.into());
                 return Poll::Ready(Ok(0));
             }
-            let n = s.read_chunks.next(avail.min(buf.len()));
+            let mut lim = avail.min(buf.len());
+            let pos = s.in_pos;
+            if let Some(c) = s.read_cuts.iter().find(|c| **c > pos) {
+                lim = lim.min(*c - pos);
+            }
+            let n = s.read_chunks.next(lim);
             let off = s.in_pos;
             buf[..n].copy_from_slice(&s.inbound[off..off + n]);
             s.in_pos += n;
